@@ -4,7 +4,7 @@ open Zc
 
 def b01 (b : Bool) : String := if b then "1" else "0"
 
-/-- `c20r <recA> <recB>` → `eq hasheq kindeq speceq`; the class field of each record is the **raw constructor
+/-- `c20r <recA> <recB>` → `eq hasheq kindeq speceq suppressedByAnswer`; the class field of each record is the **raw constructor
 argument** (flush bit included), `normCtor` is `DNSEntry._set_class` -/
 def c20r (toks : List String) : String :=
   match (do let a ← Rec.parse; let b ← Rec.parse; Tok.done; pure (a, b) : Tok (Rec × Rec)).run toks with
@@ -15,7 +15,7 @@ def c20r (toks : List String) : String :=
     let heq := decide (a.hashKey asciiLower = b.hashKey asciiLower)
     let keq := decide (a.rdata.kind = b.rdata.kind)
     let seq := decide (a.specIdent asciiLower = b.specIdent asciiLower)
-    s!"{b01 eq} {b01 heq} {b01 keq} {b01 seq}"
+    s!"{b01 eq} {b01 heq} {b01 keq} {b01 seq} {b01 (a.suppressedByAnswer asciiLower b)}"
   | none => "bad-op"
 
 /-- `c20q <qA> <qB>` → `eq hasheq speceq` -/
